@@ -14,6 +14,7 @@ pub mod c14;
 pub mod c15;
 pub mod c16;
 pub mod c19;
+pub mod c20;
 
 use serde_json::{json, Value};
 
